@@ -151,7 +151,16 @@ func (x *Exec) appendTerm(a, b Term, g Term) Term {
 	if x.isEmptySlice(a) {
 		return b
 	}
-	r := x.fresh("app", a.Sort)
+	// append is a function of its operands: the same operands give the same slice term
+	fname := "append_" + a.Sort.Name
+	x.declareOnce(fmt.Sprintf("(declare-fun %s (%s %s) %s)", fname, a.Sort.Name, b.Sort.Name, a.Sort.Name))
+	r := mk(a.Sort, fname, a, b)
+	key := "appfacts|" + r.S
+	if x.unfolded[key] {
+		return r
+	}
+	x.unfolded[key] = true
+	g = TTrue
 	lb := SlLen(b)
 	x.assume(g, Eq(SlLen(r), Add(la, lb)))
 	k := "k!q"
@@ -730,7 +739,8 @@ func (fr *Frame) specCall(i *ssa.Call, callee *ssa.Function, c *Contract, args [
 		for _, t := range ts {
 			tvs = append(tvs, TV{T: t})
 		}
-		vals, _, _ := x.runFunc(callee, tvs, free, st, g, fr, fr.prefix, true, nil)
+		// the defining equation is path-independent: the body is evaluated under guard true
+		vals, _, _ := x.runFunc(callee, tvs, free, st, TTrue, fr, fr.prefix, true, nil)
 		fr.unfoldDepth = saved
 		for r := range results {
 			if r < len(vals) {
